@@ -1145,8 +1145,11 @@ def search(ctx, facts, ok):
         ctx.hist('history_length', len(ops))
         if hno < 1:
             ctx.sample({'kind': 'pool history', 'ops': ops, 'problems': problems})
+        mutated_at = min([k for k, kind, _ in problems if kind == 'mutated'], default=None)
         for k, kind, detail in problems:
             nprob += 1
+            if mutated_at is not None and kind != 'mutated' and k >= mutated_at:
+                continue          # a consequence of the operand mutation reported for this history
             if kind == 'mutated':
                 key = classify(ops[:k + 1], kind)
                 if key not in seen_keys:
